@@ -334,6 +334,14 @@ pub fn run_one(scn: Arc<dyn Scenario>, tier: Tier, env_seed: u64, tape: TapeInpu
         log: Vec::new(),
         over_cap: false,
     };
+    // Both clocks are read as increments between two looks, half a second
+    // apart, and an increment counts for five seconds at most (CPU time for
+    // no more than the real time that passed): a clock that leaps - a
+    // virtual machine that is snapshotted or migrated mid-run was seen to
+    // add 90 s to every thread's CPU clock at once - is not a busy loop.
+    const MAX_STEP_NS: u64 = 5_000_000_000;
+    let (mut last_cpu, mut last_real) = (if have_cpu_clock { cpu_ns(cpu_clock) } else { 0 }, t_start);
+    let (mut burnt, mut waited) = (0u64, 0u64);
     loop {
         match rx.recv_timeout(Duration::from_millis(500)) {
             Ok(out) => {
@@ -346,7 +354,11 @@ pub fn run_one(scn: Arc<dyn Scenario>, tier: Tier, env_seed: u64, tape: TapeInpu
             }
             Err(std::sync::mpsc::RecvTimeoutError::Timeout) => {}
         }
-        let burnt = if have_cpu_clock { cpu_ns(cpu_clock) } else { 0 };
+        let (cpu, real) = (if have_cpu_clock { cpu_ns(cpu_clock) } else { 0 }, real_now_ns());
+        let real_step = real.saturating_sub(last_real).min(MAX_STEP_NS);
+        burnt += cpu.saturating_sub(last_cpu).min(real_step + 50_000_000);
+        waited += real_step;
+        (last_cpu, last_real) = (cpu, real);
         if burnt > BUSY_LIMIT_S * 1_000_000_000 {
             // (The thread cannot be stopped; it is left behind.)
             if scn.livelock_is_violation() {
@@ -362,7 +374,7 @@ pub fn run_one(scn: Arc<dyn Scenario>, tier: Tier, env_seed: u64, tape: TapeInpu
             }
             return dead(Some(format!("watchdog: run thread busy for {} s of CPU time (scenario {}, env_seed {})", burnt / 1_000_000_000, scn.name(), env_seed)), None);
         }
-        if real_now_ns() - t_start > STALL_LIMIT_S * 1_000_000_000 {
+        if waited > STALL_LIMIT_S * 1_000_000_000 {
             return dead(Some(format!("watchdog: run did not finish in {} s real time, {} s of them on the CPU (scenario {}, env_seed {})", STALL_LIMIT_S, burnt / 1_000_000_000, scn.name(), env_seed)), None);
         }
     }
